@@ -14,17 +14,23 @@ sys.path.insert(0, VERIF)
 
 
 def main():
-    tier = sys.argv[1]
-    seeds = [int(s) for s in sys.argv[2].split(',')]
-    props = sys.argv[3:] or ['C%02d' % i for i in range(1, 21)]
+    write = '--write' in sys.argv
+    args = [x for x in sys.argv[1:] if x != '--write']
+    tier = args[0]
+    seeds = [int(s) for s in args[1].split(',')]
+    props = args[2:] or ['C%02d' % i for i in range(1, 21)]
+    fj = os.path.join(VERIF, 'vlib', 'floors.json')
+    import json
+    table = json.load(open(fj)) if os.path.exists(fj) else {}
     for prop in props:
         mod = importlib.import_module('vlib.props.' + prop.lower())
-        floors = getattr(mod, 'FLOORS', {}).get(tier, {})
+        floors = table.get(prop, {}).get(tier) or getattr(mod, 'FLOORS', {}).get(tier, {})
+        keys_from = getattr(mod, 'FLOORS', {}).get(tier, {})
         mins = {}
         alarms = []
         for s in seeds:
             r = subprocess.run([os.path.join(VERIF, 'check'), prop, '--tier', tier, '--no-evidence'], capture_output=True, text=True,
-                               env=dict(os.environ, VERIF_SEED=str(s)), cwd=VERIF)
+                               env=dict(os.environ, VERIF_SEED=str(s), VERIF_NO_FLOORS='1'), cwd=VERIF)
             out = r.stdout
             m = re.search(r'held=(\d+) violated=(\d+) inconclusive=(\d+) distinct_nontrivial=(\d+)', out)
             if not m:
@@ -55,6 +61,13 @@ def main():
             print('   ALARM', a)
         print('   min observed:', ', '.join('%s=%d' % kv for kv in sorted(mins.items()) if not kv[0].startswith('max_diff')))
         sys.stdout.flush()
+        if write and not alarms:
+            keys = set(keys_from.get('counters', {})) | set(floors.get('counters', {}))
+            table.setdefault(prop, {})[tier] = {
+                'conclusive': max(1, mins.get('conclusive', 0) // 3), 'distinct_nontrivial': max(1, mins.get('distinct_nontrivial', 0) // 3),
+                'counters': {k: max(1, mins.get(k, 0) // 3) for k in sorted(keys) if mins.get(k, 0) > 0},
+                'measured_on_seeds': seeds}
+            json.dump(table, open(fj, 'w'), indent=1, sort_keys=True)
 
 
 if __name__ == '__main__':
